@@ -15,6 +15,7 @@ class Parser:
         Simplified model of interaction with the translator.
         """
         self._safety_check: bool = True
+        self._safety_check_has_been_changed: bool = True
         self._translation: Optional[str] = None
         self._entrypoint_cell: Optional[Cell] = None
         self._entrypoint_cell_has_been_changed: bool = True
@@ -29,6 +30,7 @@ class Parser:
         Returns:
             Parser.
         """
+        self._safety_check_has_been_changed = self._safety_check_has_been_changed or not self._safety_check
         self._safety_check = True
         return self
 
@@ -39,6 +41,7 @@ class Parser:
         Returns:
             Parser.
         """
+        self._safety_check_has_been_changed = self._safety_check_has_been_changed or self._safety_check
         self._safety_check = False
         return self
 
@@ -67,6 +70,7 @@ class Parser:
             Parser.
         """
         self._entrypoint_cell = cell
+        self._entrypoint_cell_has_been_changed = True
         return self
 
     def _translate(self) -> Parser:
@@ -81,7 +85,8 @@ class Parser:
             E2PyclSafetyException: If security check is enabled and suspicious fragments are found,
                 an exception will be thrown.
         """
-        if not self._excel_file_path_has_been_changed and not self._entrypoint_cell_has_been_changed:
+        if not self._excel_file_path_has_been_changed and not self._entrypoint_cell_has_been_changed \
+                and not self._safety_check_has_been_changed:
             return self
 
         if not self._excel_file_path:
@@ -96,7 +101,9 @@ class Parser:
         context._sheets_size = excel.get_sheets_size()
 
         if self._entrypoint_cell:
-            CellTranslator.translate(self._entrypoint_cell, excel, context)
+            # the entry cell is copied so that identifiers and value resolved for one workbook are never reused for another
+            CellTranslator.translate(Cell(title=self._entrypoint_cell.title, column=self._entrypoint_cell.column,
+                                          row=self._entrypoint_cell.row), excel, context)
         else:
             CellTranslator.translate_file(excel, context)
 
@@ -104,6 +111,7 @@ class Parser:
 
         self._excel_file_path_has_been_changed = False
         self._entrypoint_cell_has_been_changed = False
+        self._safety_check_has_been_changed = False
 
         return self
 
